@@ -3,32 +3,6 @@ import DL.Lemmas.CFSound6
 /-! From the invariant to whole programs and to the `no-unreachable` rule layer. -/
 namespace DL.CF
 
-mutual
-theorem Kid.flagged_flat (info : Info) : ∀ (k : Kid), k.flat = true → k.flagged info = []
-  | .expr _ ks, h => by simp only [Kid.flagged]; exact Kids.flagged_flat info ks (by simpa [Kid.flat] using h)
-  | .fnScope _ _, h => by simp [Kid.flat] at h
-  | .block _ _, h => by simp [Kid.flat] at h
-  | .stmt _, h => by simp [Kid.flat] at h
-theorem Kids.flagged_flat (info : Info) : ∀ (ks : Kids), ks.flat = true → ks.flagged info = []
-  | .nil, _ => rfl
-  | .cons k r, h => by
-    simp only [Kids.flat, Bool.and_eq_true] at h
-    simp [Kids.flagged, Kid.flagged_flat info k h.1, Kids.flagged_flat info r h.2]
-end
-
-mutual
-theorem Kid.inner_flat : ∀ (k : Kid) (p : Nat), k.flat = true → k.inner p = false
-  | .expr _ ks, p, h => by simp only [Kid.inner]; exact Kids.inner_flat ks p (by simpa [Kid.flat] using h)
-  | .fnScope _ _, _, h => by simp [Kid.flat] at h
-  | .block _ _, _, h => by simp [Kid.flat] at h
-  | .stmt _, _, h => by simp [Kid.flat] at h
-theorem Kids.inner_flat : ∀ (ks : Kids) (p : Nat), ks.flat = true → ks.inner p = false
-  | .nil, _, _ => rfl
-  | .cons k r, p, h => by
-    simp only [Kids.flat, Bool.and_eq_true] at h
-    simp [Kids.inner, Kid.inner_flat k p h.1, Kids.inner_flat r p h.2]
-end
-
 theorem flagHere_sub (info : Info) (s : Stmt) (q : Nat) (h : q ∈ flagHere info s) : q = s.pos ∧ info.ur q = true := by
   unfold flagHere at h
   by_cases hc : (!exempt s && metaUnreach info s.pos) = true
@@ -38,115 +12,89 @@ theorem flagHere_sub (info : Info) (s : Stmt) (q : Nat) (h : q ∈ flagHere info
     exact ⟨rfl, hc.2⟩
   · rw [if_neg hc] at h; cases h
 
-mutual
-theorem Stmt.flagged_sub (info : Info) : ∀ (s : Stmt), s.inF = true → ∀ q ∈ s.flagged info, q ∈ s.positions ∧ info.ur q = true
-  | .simple p t kids, hf, q, hq => by
-    simp only [Stmt.flagged, Kids.flagged_flat info kids (by simpa [Stmt.inF] using hf), List.append_nil] at hq
-    have := flagHere_sub info _ q hq
-    exact ⟨by simp [Stmt.positions, this.1, Stmt.pos], this.2⟩
-  | .block p b, hf, q, hq => by
-    simp only [Stmt.flagged] at hq
-    have := Stmts.flagged_sub info b (by simpa [Stmt.inF] using hf) q hq
-    exact ⟨by simp [Stmt.positions, this.1], this.2⟩
-  | .ifS p t c none, hf, q, hq => by
-    have hf' : t.flat = true ∧ c.inF = true := by simpa [Stmt.inF] using hf
-    simp only [Stmt.flagged, Kids.flagged_flat info t hf'.1, List.append_nil, List.mem_append] at hq
-    rcases hq with hq | hq
-    · have := flagHere_sub info _ q hq; exact ⟨by simp [Stmt.positions, this.1, Stmt.pos], this.2⟩
-    · have := Stmt.flagged_sub info c hf'.2 q hq; exact ⟨by simp [Stmt.positions, this.1], this.2⟩
-  | .ifS p t c (some al), hf, q, hq => by
-    have hf' : (t.flat = true ∧ c.inF = true) ∧ al.inF = true := by simpa [Stmt.inF] using hf
-    simp only [Stmt.flagged, Kids.flagged_flat info t hf'.1.1, List.append_nil, List.mem_append] at hq
-    rcases hq with (hq | hq) | hq
-    · have := flagHere_sub info _ q hq; exact ⟨by simp [Stmt.positions, this.1, Stmt.pos], this.2⟩
-    · have := Stmt.flagged_sub info c hf'.1.2 q hq; exact ⟨by simp [Stmt.positions, this.1], this.2⟩
-    · have := Stmt.flagged_sub info al hf'.2 q hq; exact ⟨by simp [Stmt.positions, this.1], this.2⟩
-  | .whileS p t tt b, hf, q, hq => by
-    have hf' : t.flat = true ∧ b.inF = true := by simpa [Stmt.inF] using hf
-    simp only [Stmt.flagged, Kids.flagged_flat info t hf'.1, List.append_nil, List.mem_append] at hq
-    rcases hq with hq | hq
-    · have := flagHere_sub info _ q hq; exact ⟨by simp [Stmt.positions, this.1, Stmt.pos], this.2⟩
-    · have := Stmt.flagged_sub info b hf'.2 q hq; exact ⟨by simp [Stmt.positions, this.1], this.2⟩
-  | .doWhileS p b t tt, hf, q, hq => by
-    have hf' : t.flat = true ∧ b.inF = true := by simpa [Stmt.inF] using hf
-    simp only [Stmt.flagged, Kids.flagged_flat info t hf'.1, List.append_nil, List.mem_append] at hq
-    rcases hq with hq | hq
-    · have := flagHere_sub info _ q hq; exact ⟨by simp [Stmt.positions, this.1, Stmt.pos], this.2⟩
-    · have := Stmt.flagged_sub info b hf'.2 q hq; exact ⟨by simp [Stmt.positions, this.1], this.2⟩
-  | .forS p i u t ht tt b, hf, q, hq => by
-    have hf' : ((i.flat = true ∧ u.flat = true) ∧ t.flat = true) ∧ b.inF = true := by simpa [Stmt.inF] using hf
-    simp only [Stmt.flagged, Kids.flagged_flat info i hf'.1.1.1, Kids.flagged_flat info u hf'.1.1.2,
-      Kids.flagged_flat info t hf'.1.2, List.append_nil, List.mem_append] at hq
-    rcases hq with hq | hq
-    · have := flagHere_sub info _ q hq; exact ⟨by simp [Stmt.positions, this.1, Stmt.pos], this.2⟩
-    · have := Stmt.flagged_sub info b hf'.2 q hq; exact ⟨by simp [Stmt.positions, this.1], this.2⟩
-  | .forInOf p l r b, hf, q, hq => by
-    have hf' : (l.flat = true ∧ r.flat = true) ∧ b.inF = true := by simpa [Stmt.inF] using hf
-    simp only [Stmt.flagged, Kids.flagged_flat info l hf'.1.1, Kids.flagged_flat info r hf'.1.2,
-      List.append_nil, List.mem_append] at hq
-    rcases hq with hq | hq
-    · have := flagHere_sub info _ q hq; exact ⟨by simp [Stmt.positions, this.1, Stmt.pos], this.2⟩
-    · have := Stmt.flagged_sub info b hf'.2 q hq; exact ⟨by simp [Stmt.positions, this.1], this.2⟩
-  | .brk p l, _, q, hq => by
-    simp only [Stmt.flagged] at hq
-    have := flagHere_sub info _ q hq; exact ⟨by simp [Stmt.positions, this.1, Stmt.pos], this.2⟩
-  | .cont p l, _, q, hq => by
-    simp only [Stmt.flagged] at hq
-    have := flagHere_sub info _ q hq; exact ⟨by simp [Stmt.positions, this.1, Stmt.pos], this.2⟩
-  | .ret p arg, hf, q, hq => by
-    simp only [Stmt.flagged, Kids.flagged_flat info arg (by simpa [Stmt.inF] using hf), List.append_nil] at hq
-    have := flagHere_sub info _ q hq; exact ⟨by simp [Stmt.positions, this.1, Stmt.pos], this.2⟩
-  | .throw p arg, hf, q, hq => by
-    simp only [Stmt.flagged, Kids.flagged_flat info arg (by simpa [Stmt.inF] using hf), List.append_nil] at hq
-    have := flagHere_sub info _ q hq; exact ⟨by simp [Stmt.positions, this.1, Stmt.pos], this.2⟩
-  | .switchS .., hf, _, _ => by simp [Stmt.inF] at hf
-  | .tryS .., hf, _, _ => by simp [Stmt.inF] at hf
-  | .labeled .., hf, _, _ => by simp [Stmt.inF] at hf
-theorem Stmts.flagged_sub (info : Info) : ∀ (l : Stmts), l.inF = true → ∀ q ∈ l.flagged info, q ∈ l.positions ∧ info.ur q = true
-  | .nil, _, q, hq => by simp [Stmts.flagged] at hq
-  | .cons s r, hf, q, hq => by
-    have hf' : s.inF = true ∧ r.inF = true := by simpa [Stmts.inF] using hf
-    simp only [Stmts.flagged, List.mem_append] at hq
-    rcases hq with hq | hq
-    · have := Stmt.flagged_sub info s hf'.1 q hq; exact ⟨by simp [Stmts.positions, this.1], this.2⟩
-    · have := Stmts.flagged_sub info r hf'.2 q hq; exact ⟨by simp [Stmts.positions, this.1], this.2⟩
-end
+/-- the rule only reports statement positions (`upos`) whose metadata says `unreachable` (whole language) -/
+def FlagSub (info : Info) (fl us : List Nat) : Prop := ∀ q ∈ fl, q ∈ us ∧ info.ur q = true
+
+theorem FlagSub.here {info : Info} {s : Stmt} {p : Nat} {us : List Nat} (hp : s.pos = p) :
+    FlagSub info (flagHere info s) (p :: us) := by
+  intro q hq
+  have := flagHere_sub info s q hq
+  exact ⟨by simp [this.1, hp], this.2⟩
+
+theorem FlagSub.append {info : Info} {f1 f2 u1 u2 : List Nat} (h1 : FlagSub info f1 u1) (h2 : FlagSub info f2 u2) :
+    FlagSub info (f1 ++ f2) (u1 ++ u2) := by
+  intro q hq
+  rcases List.mem_append.mp hq with h | h
+  · exact ⟨List.mem_append.mpr (Or.inl (h1 q h).1), (h1 q h).2⟩
+  · exact ⟨List.mem_append.mpr (Or.inr (h2 q h).1), (h2 q h).2⟩
+
+theorem FlagSub.cons {info : Info} {f1 f2 u2 : List Nat} {p : Nat} (h1 : FlagSub info f1 [p]) (h2 : FlagSub info f2 u2) :
+    FlagSub info (f1 ++ f2) (p :: u2) := h1.append h2
+
+theorem FlagSub.here1 {info : Info} {s : Stmt} {p : Nat} (hp : s.pos = p) : FlagSub info (flagHere info s) [p] :=
+  FlagSub.here hp
 
 mutual
-theorem Stmt.inner_inF : ∀ (s : Stmt) (p : Nat), s.inF = true → s.inner p = false
-  | .simple _ _ kids, p, hf => by simp only [Stmt.inner]; exact Kids.inner_flat kids p (by simpa [Stmt.inF] using hf)
-  | .block _ b, p, hf => by simp only [Stmt.inner]; exact Stmts.inner_inF b p (by simpa [Stmt.inF] using hf)
-  | .ifS _ t c none, p, hf => by
-    have hf' : t.flat = true ∧ c.inF = true := by simpa [Stmt.inF] using hf
-    simp [Stmt.inner, Kids.inner_flat t p hf'.1, Stmt.inner_inF c p hf'.2]
-  | .ifS _ t c (some al), p, hf => by
-    have hf' : (t.flat = true ∧ c.inF = true) ∧ al.inF = true := by simpa [Stmt.inF] using hf
-    simp [Stmt.inner, Kids.inner_flat t p hf'.1.1, Stmt.inner_inF c p hf'.1.2, Stmt.inner_inF al p hf'.2]
-  | .whileS _ t _ b, p, hf => by
-    have hf' : t.flat = true ∧ b.inF = true := by simpa [Stmt.inF] using hf
-    simp [Stmt.inner, Kids.inner_flat t p hf'.1, Stmt.inner_inF b p hf'.2]
-  | .doWhileS _ b t _, p, hf => by
-    have hf' : t.flat = true ∧ b.inF = true := by simpa [Stmt.inF] using hf
-    simp [Stmt.inner, Kids.inner_flat t p hf'.1, Stmt.inner_inF b p hf'.2]
-  | .forS _ i u t _ _ b, p, hf => by
-    have hf' : ((i.flat = true ∧ u.flat = true) ∧ t.flat = true) ∧ b.inF = true := by simpa [Stmt.inF] using hf
-    simp [Stmt.inner, Kids.inner_flat i p hf'.1.1.1, Kids.inner_flat u p hf'.1.1.2, Kids.inner_flat t p hf'.1.2,
-      Stmt.inner_inF b p hf'.2]
-  | .forInOf _ l r b, p, hf => by
-    have hf' : (l.flat = true ∧ r.flat = true) ∧ b.inF = true := by simpa [Stmt.inF] using hf
-    simp [Stmt.inner, Kids.inner_flat l p hf'.1.1, Kids.inner_flat r p hf'.1.2, Stmt.inner_inF b p hf'.2]
-  | .brk .., _, _ => rfl
-  | .cont .., _, _ => rfl
-  | .ret _ arg, p, hf => by simp only [Stmt.inner]; exact Kids.inner_flat arg p (by simpa [Stmt.inF] using hf)
-  | .throw _ arg, p, hf => by simp only [Stmt.inner]; exact Kids.inner_flat arg p (by simpa [Stmt.inF] using hf)
-  | .switchS .., _, hf => by simp [Stmt.inF] at hf
-  | .tryS .., _, hf => by simp [Stmt.inF] at hf
-  | .labeled .., _, hf => by simp [Stmt.inF] at hf
-theorem Stmts.inner_inF : ∀ (l : Stmts) (p : Nat), l.inF = true → l.inner p = false
-  | .nil, _, _ => rfl
-  | .cons s r, p, hf => by
-    have hf' : s.inF = true ∧ r.inF = true := by simpa [Stmts.inF] using hf
-    simp [Stmts.inner, Stmt.inner_inF s p hf'.1, Stmts.inner_inF r p hf'.2]
+theorem Stmt.flagged_sub (info : Info) : ∀ (s : Stmt), FlagSub info (s.flagged info) s.upos
+  | .simple p t kids => by
+    simp only [Stmt.flagged, Stmt.upos]; exact (FlagSub.here1 rfl).cons (Kids.flagged_sub info kids)
+  | .block p b => by
+    simp only [Stmt.flagged, Stmt.upos]
+    intro q hq; have := Stmts.flagged_sub info b q hq; exact ⟨List.mem_cons_of_mem _ this.1, this.2⟩
+  | .ifS p t c none => by
+    simp only [Stmt.flagged, Stmt.upos, List.append_assoc]
+    exact (FlagSub.here1 rfl).cons ((Kids.flagged_sub info t).append (Stmt.flagged_sub info c))
+  | .ifS p t c (some al) => by
+    simp only [Stmt.flagged, Stmt.upos, List.append_assoc]
+    exact (FlagSub.here1 rfl).cons ((Kids.flagged_sub info t).append ((Stmt.flagged_sub info c).append (Stmt.flagged_sub info al)))
+  | .whileS p t tt b => by
+    simp only [Stmt.flagged, Stmt.upos, List.append_assoc]
+    exact (FlagSub.here1 rfl).cons ((Kids.flagged_sub info t).append (Stmt.flagged_sub info b))
+  | .doWhileS p b t tt => by
+    simp only [Stmt.flagged, Stmt.upos, List.append_assoc]
+    exact (FlagSub.here1 rfl).cons ((Kids.flagged_sub info t).append (Stmt.flagged_sub info b))
+  | .forS p i u t ht tt b => by
+    simp only [Stmt.flagged, Stmt.upos, List.append_assoc]
+    have := (FlagSub.here1 (info := info) (s := .cont p none) (p := p) rfl).cons ((Kids.flagged_sub info i).append
+      ((Kids.flagged_sub info u).append ((Kids.flagged_sub info t).append (Stmt.flagged_sub info b))))
+    simpa only [List.append_assoc] using this
+  | .forInOf p l r b => by
+    simp only [Stmt.flagged, Stmt.upos, List.append_assoc]
+    have := (FlagSub.here1 (info := info) (s := .cont p none) (p := p) rfl).cons ((Kids.flagged_sub info l).append
+      ((Kids.flagged_sub info r).append (Stmt.flagged_sub info b)))
+    simpa only [List.append_assoc] using this
+  | .switchS p d cs => by
+    simp only [Stmt.flagged, Stmt.upos, List.append_assoc]
+    exact (FlagSub.here1 rfl).cons ((Kids.flagged_sub info d).append (Cases.flagged_sub info cs))
+  | .tryS p bp b hh cp ck hf fp f => by
+    simp only [Stmt.flagged, Stmt.upos, List.append_assoc]
+    exact (FlagSub.here1 rfl).cons ((Stmts.flagged_sub info b).append ((Kids.flagged_sub info ck).append (Stmts.flagged_sub info f)))
+  | .labeled p l b => by
+    simp only [Stmt.flagged, Stmt.upos]; exact (FlagSub.here1 rfl).cons (Stmt.flagged_sub info b)
+  | .brk p l => by simp only [Stmt.flagged, Stmt.upos]; exact FlagSub.here1 rfl
+  | .cont p l => by simp only [Stmt.flagged, Stmt.upos]; exact FlagSub.here1 rfl
+  | .ret p arg => by
+    simp only [Stmt.flagged, Stmt.upos]; exact (FlagSub.here1 rfl).cons (Kids.flagged_sub info arg)
+  | .throw p arg => by
+    simp only [Stmt.flagged, Stmt.upos]; exact (FlagSub.here1 rfl).cons (Kids.flagged_sub info arg)
+theorem Stmts.flagged_sub (info : Info) : ∀ (l : Stmts), FlagSub info (l.flagged info) l.upos
+  | .nil => by simp [Stmts.flagged, FlagSub]
+  | .cons s r => by
+    simp only [Stmts.flagged, Stmts.upos]; exact (Stmt.flagged_sub info s).append (Stmts.flagged_sub info r)
+theorem Kid.flagged_sub (info : Info) : ∀ (k : Kid), FlagSub info (k.flagged info) k.upos
+  | .expr _ ks => by simp only [Kid.flagged, Kid.upos]; exact Kids.flagged_sub info ks
+  | .fnScope _ ks => by simp only [Kid.flagged, Kid.upos]; exact Kids.flagged_sub info ks
+  | .block _ b => by simp only [Kid.flagged, Kid.upos]; exact Stmts.flagged_sub info b
+  | .stmt s => by simp only [Kid.flagged, Kid.upos]; exact Stmt.flagged_sub info s
+theorem Kids.flagged_sub (info : Info) : ∀ (ks : Kids), FlagSub info (ks.flagged info) ks.upos
+  | .nil => by simp [Kids.flagged, FlagSub]
+  | .cons k r => by
+    simp only [Kids.flagged, Kids.upos]; exact (Kid.flagged_sub info k).append (Kids.flagged_sub info r)
+theorem Cases.flagged_sub (info : Info) : ∀ (cs : Cases), FlagSub info (cs.flagged info) cs.upos
+  | .nil => by simp [Cases.flagged, FlagSub]
+  | .cons _ _ t b r => by
+    simp only [Cases.flagged, Cases.upos, List.append_assoc]
+    exact (Kids.flagged_sub info t).append ((Stmts.flagged_sub info b).append (Cases.flagged_sub info r))
 end
 
 /-! ### whole programs: a list of top-level statements of the fragment -/
@@ -182,21 +130,23 @@ theorem flagged_script (ss : List Stmt) (info : Info) :
   | nil => rfl
   | cons s r ih => simp [stmtsOfList, Stmts.flagged, ih]
 
-/-- **soundness of `no-unreachable` on the fragment**: in a script made of statements of the fragment, with pairwise
-distinct statement positions, no flagged statement is reachable -/
+/-- **soundness of `no-unreachable` on the fragment**: in a script made of statements of the fragment (with functions
+nested in expressions to any depth), with pairwise distinct positions, no flagged statement is reachable — neither from
+the start of the script nor from the entry of any function in it -/
 theorem script_flagged_unreachable (ss : List Stmt) (hf : (stmtsOfList ss).inF = true)
     (hnd : (stmtsOfList ss).positions.Nodup) (p : Nat)
     (hp : p ∈ Program.flagged { isModule := false, items := ss.map .stmt } (analyze { isModule := false, items := ss.map .stmt })) :
     Program.reachable { isModule := false, items := ss.map .stmt } p = false := by
   rw [flagged_script, analyze_script] at hp
   have hpre : Pre true (stmtsOfList ss).positions { sc := {}, info := Info.empty } :=
-    ⟨fun h => by simp at h, fun _ _ => rfl, hnd, Or.inl rfl⟩
+    ⟨fun h => by simp at h, fun _ _ => rfl, hnd⟩
   have hpost := visitStmts_ok (stmtsOfList ss) true _ hf hpre
-  obtain ⟨hmem, hur⟩ := Stmts.flagged_sub _ (stmtsOfList ss) hf p hp
-  have := hpost.p3 p hmem hur
+  obtain ⟨hmem, hur⟩ := Stmts.flagged_sub _ (stmtsOfList ss) p hp
+  have h1 := hpost.p3 p hmem hur
+  have h2 := hpost.p3i p hmem hur
   unfold Program.reachable
   simp only
-  rw [itemsReach_script, itemsInner_script, Stmts.inner_inF _ p hf]
-  simpa using this
+  rw [itemsReach_script, itemsInner_script, h2]
+  simpa using h1
 
 end DL.CF
